@@ -385,4 +385,4 @@ pub fn run(rep: &Report) {
     rep.sample("`loopne L` with CX=0x0001, ZF=0 -> CX=0x0000, not taken".to_string());
 }
 
-pub const RULE: &str = "every jump/loop spelling of syntax.md in lower and upper case (cross-checked against the terminals scraped from the grammar) is assembled by the real Preprocessor in three placements (target behind the jump, the jump targeting itself, target ahead) and its emitted line executed at its own index under all 2^16 flag words; JCXZ/LOOP/LOOPE/LOOPNE additionally under all 2^16 CX values x ZF x two settings of the other flags. Every condition is also run as a whole program through the real driver (target behind, ahead, LOOP family on its own line; taken and not taken) and judged by the reference interpreter over the program (C08's comparison). Oracle: Intel predicate table; nothing but CX (LOOP family) may change; complements and synonyms compared observed-vs-observed. Distinct = (condition, CF/ZF/SF/OF/PF combination).";
+pub const RULE: &str = "every jump/loop spelling of syntax.md in lower and upper case (cross-checked against the terminals scraped from the grammar) is assembled by the real Preprocessor in three placements (target behind the jump, the jump targeting itself, target ahead) and its emitted line executed at its own index under all 2^16 flag words; JCXZ/LOOP/LOOPE/LOOPNE additionally under all 2^16 CX values x ZF x two settings of the other flags. Every condition is also run as a whole program through the real driver (target behind, ahead, LOOP family on its own line; taken and not taken) and judged by the reference interpreter over the program (C08's comparison). Oracle: Intel predicate table; nothing but CX (LOOP family) may change; complements and synonyms compared observed-vs-observed. Distinct = (condition, CF/ZF/SF/OF/PF combination). Through the real driver: every condition in five placements (target behind / ahead / on the jump itself / the same jump in a procedure called 2-4 times from sequences of CX and flag states / jump and target beyond instruction index 65535).";
